@@ -1,0 +1,28 @@
+//go:build verif
+
+// Machine-checked contracts for package integrate (comment-only file; see /verif/DESIGN.md).
+package integrate
+
+//@ define idx(i, z) = 0 <= i && i < pow2(z)
+//@ define vidx(f, z) = 0 - pow2(z) <= f && f < pow2(z)
+
+//@ -- C03: per-axis kernels.  Zoom-in: [i*2^d, (i+1)*2^d - 1]; zoom-out: the floor ancestor.
+//@ func HorizontalZoomMinMax
+//@   props C03 C09 C10 C11 C05
+//@   split inputZoom 0..35
+//@   split outputZoom 0..35
+//@   valid idx(xIndex, inputZoom) && idx(yIndex, inputZoom)
+//@   ensures [in] outputZoom >= inputZoom && idx(xIndex, inputZoom) && idx(yIndex, inputZoom) ==> r0 == xIndex * pow2(outputZoom - inputZoom) && r2 == (xIndex + 1) * pow2(outputZoom - inputZoom) - 1 && r1 == yIndex * pow2(outputZoom - inputZoom) && r3 == (yIndex + 1) * pow2(outputZoom - inputZoom) - 1
+//@   ensures [out] outputZoom < inputZoom && idx(xIndex, inputZoom) && idx(yIndex, inputZoom) ==> r0 == anc(xIndex, inputZoom - outputZoom) && r2 == r0 && r1 == anc(yIndex, inputZoom - outputZoom) && r3 == r1
+//@   ensures [range] idx(xIndex, inputZoom) && idx(yIndex, inputZoom) ==> idx(r0, outputZoom) && idx(r2, outputZoom) && idx(r1, outputZoom) && idx(r3, outputZoom) && r0 <= r2 && r1 <= r3
+//@ end
+
+//@ func VerticalZoom
+//@   props C03 C09 C10 C11 C05
+//@   split inputZoom 0..35
+//@   split outputZoom 0..35
+//@   valid vidx(vIndex, inputZoom)
+//@   ensures [in] outputZoom >= inputZoom && vidx(vIndex, inputZoom) ==> len(r0) == pow2(outputZoom - inputZoom) && (forall k :: 0 <= k && k < len(r0) ==> r0[k] == vid(outputZoom, vIndex * pow2(outputZoom - inputZoom) + k))
+//@   ensures [out] outputZoom < inputZoom && vidx(vIndex, inputZoom) ==> len(r0) == 1 && r0[0] == vid(outputZoom, anc(vIndex, inputZoom - outputZoom))
+//@   loop 0 invariant vidx(vIndex, inputZoom) ==> minVparam <= v && v <= maxVparam + 1 && len(verticalIDs) == v - minVparam && (forall k :: 0 <= k && k < len(verticalIDs) ==> verticalIDs[k] == vid(outputZoom, minVparam + k))
+//@ end
